@@ -1122,6 +1122,8 @@ namespace occa {
         if (tokenType & tokenType::newline) {
           incrementNewline();
           pushOutput(token);
+          // The newline now belongs to the output
+          token = NULL;
         } else if (tokenType & ~tokenType::none) {
           errorToken = token;
         }
